@@ -29,14 +29,15 @@ def run_theme(C, theme, maxtok, traced=True, workers=4, simulate=None, depth=Non
             suffix = ".html" if env["ae"] else ".txt"
             src = G.source(v["p"], texts, suffix)
             tpls = [["t" + suffix, src]] + [[n + suffix, G.source(p, texts, suffix)] for n, p in sorted(lib.items())]
-            jobs.append({"cfg": {"probes": True, "autoescape": [".html"], "gctx": G.context(env["gctx"])}, "ctx": G.context(env["ctx"]),
+            jobs.append({"cfg": {"probes": True, "autoescape": [".html"], "gctx": G.context(env["gctx"]), "escape": env.get("esc", "html")}, "ctx": G.context(env["ctx"]),
                          "steps": [{"op": "add", "tpls": list(reversed(tpls))}, {"op": "render", "name": "t" + suffix, "expect_ae": env["ae"]}]
                                   + ([{"op": "render_str", "src": src, "auto": env["ae"], "expect_ae": env["ae"]}] if also_str else [])})
             meta.append((vi, ei, src))
     res = vp.traced(jobs, C, tag) if traced else vp.run_jobs(jobs, tag=tag, timeout=3000)
     for (vi, ei, src), rr, job in zip(meta, res, jobs):
         C.count()
-        exp = vecs[vi]["r"][ei]
+        exp = dict(vecs[vi]["r"][ei])
+        exp["out"] = G.unplace(exp.get("out", ""))
         add, x = rr[0], rr[1]
         key = {"theme": theme, "src": src, "env": ei}
         if any(y.get("panic") or y.get("abort") for y in rr):
